@@ -332,3 +332,31 @@ Definition run_glue (c : glue_case) : result bytes :=
   | 2 => block_payload_hash bl dc en (g_pred c) (g_round c) (concat (g_lists c))
   | _ => of_outcome (reduce_operation_hashes bl (concat (g_lists c)))
   end.
+
+(* compact byte-string literals for the generated cases: consecutive pieces of at most 256 bytes, each
+   written as the number int.from_bytes(piece + b'\x01', 'little') (hex positive literal). Decoding is a
+   bit walk; [Base.Bytes.hx] costs a division per byte. *)
+Definition mkbyte (l : list bool) : byte :=
+  match l with
+  | [b7; b6; b5; b4; b3; b2; b1; b0] => Byte.of_bits (b0, (b1, (b2, (b3, (b4, (b5, (b6, b7)))))))
+  | _ => x00
+  end.
+Fixpoint bop (p : positive) (cur : list bool) (k : nat) : bytes :=
+  match p with
+  | xH => []
+  | xO q => match k with 7 => mkbyte (false :: cur) :: bop q [] 0 | _ => bop q (false :: cur) (S k) end
+  | xI q => match k with 7 => mkbyte (true :: cur) :: bop q [] 0 | _ => bop q (true :: cur) (S k) end
+  end.
+Definition bp (l : list positive) : bytes := List.concat (map (fun p => bop p [] 0) l).
+
+(* one generated case of any of the three streams, with the implementation's answer *)
+Inductive ccase :=
+| CFree (n : nat) (expect : list positive)
+| CNum (n : nat) (seed e : N) (expect : Z)
+| CGlue (c : glue_case) (expect : result bytes).
+Definition ccheck (c : ccase) : bool :=
+  match c with
+  | CFree n x => poslist_eqb (free_reduce_pos n) x
+  | CNum n s e x => Z.eqb (num_case (n, s, e)) x
+  | CGlue g x => rbytes_eqb (run_glue g) x
+  end.
